@@ -1,6 +1,7 @@
 import Alpen.Model.Daemon
 import Alpen.Lemmas.World
 import Alpen.Lemmas.Daemon2
+import Alpen.Lemmas.Transport
 /-!
 # C05 — quiescent convergence: pending work is finished or blocked for a stated reason
 
@@ -151,6 +152,50 @@ theorem C05_fixed_point_classified (w : World) (hv : HostView) (hwf : w.WellForm
     · left; unfold reqBlocked; rw [hu]; simp
     · left; unfold reqBlocked; rw [hu]; simp
     · exact Or.inr ⟨f, hu⟩
+
+/-- **Transport groups** (`TransportGroupIO.pull_force` node choice): a request into a transport group is handed to a
+    node iff the source is local and some node of the group can take the file; the node chosen is eligible (not below its
+    minimum, not above its maximum, the file fits) and is the fullest such node.  So such a request stays pending only
+    for the documented reasons "no transport route" (non-local source) or "destination out of space". -/
+theorem C05_transport_pick (srcLocal : Bool) (nodes : List TNode) :
+    (∀ id, transportPick srcLocal nodes = some id →
+        srcLocal = true ∧ ∃ n ∈ nodes, n.id = id ∧ n.eligible = true ∧ ∀ m ∈ nodes, m.eligible = true → n.key ≤ m.key) ∧
+    (transportPick srcLocal nodes = none ↔ (srcLocal = false ∨ ∀ n ∈ nodes, n.eligible = false)) := by
+  constructor
+  · intro id h
+    unfold transportPick at h
+    split at h
+    · rename_i hl
+      cases hm : minKey none (nodes.filter TNode.eligible) with
+      | none => simp [hm] at h
+      | some r =>
+        simp [hm] at h
+        have hmem := minKey_mem none _ r hm
+        have hle := (minKey_le none _ r hm).2
+        rcases hmem with hb | hmem
+        · cases hb
+        · obtain ⟨h1, h2⟩ := List.mem_filter.mp hmem
+          exact ⟨hl, r, h1, h, h2, fun m hm' he => hle m (List.mem_filter.mpr ⟨hm', he⟩)⟩
+    · cases h
+  · unfold transportPick
+    cases srcLocal with
+    | false => simp
+    | true =>
+      simp only [if_true, Option.map_eq_none_iff, minKey_none, Bool.true_eq_false, false_or]
+      constructor
+      · intro h n hn
+        cases he : n.eligible with
+        | false => rfl
+        | true =>
+          have : n ∈ nodes.filter TNode.eligible := List.mem_filter.mpr ⟨hn, he⟩
+          rw [h] at this; cases this
+      · intro h
+        apply List.filter_eq_nil_iff.mpr
+        intro n hn
+        simp [h n hn]
+
+example : transportPick true [⟨1, some 500, false, false, true⟩, ⟨2, some 100, true, false, true⟩, ⟨3, some 300, false, false, true⟩,
+    ⟨4, none, false, false, true⟩] = some 3 := by decide
 
 /-- the flip side (F16): a pending request behind an earlier pending request for the same file into the same group
     is not examined by the pass, whatever the state of the earlier one -/
